@@ -88,8 +88,8 @@ def handmade():
     h = [
         [B, tx("deploy"), tx("xfer"), tx("stake"), tx("vault"), E, B, tx("callok"), tx("callfail"), tx("name"), tx("xfer3"), tx("vote1"), E,
          B, tx("callfail3"), tx("stake3"), tx("fdok"), tx("fdfail"), tx("fdfail", "replay"), tx("fdfail3"), tx("xfer", "replay"), tx("forged"), tx("foreign"), tx("over"), tx("callsys"), tx("fdsys"), E, B, tx("xfercb"), tx("unstake"), tx("name3"), tx("fdfail", "replay"), tx("callfail", "replay"), tx("fdok", "replay"), E],
-        [B, tx("xfer"), tx("xfer", "dup"), tx("xfer", "gap"), tx("stakelow"), tx("xferself"), E, B, tx("xfer"), tx("xfer", "replay"), tx("forged3"), E, B, E],
-        [B, tx("vault"), tx("stake"), tx("stake3"), E, B, tx("vote1"), tx("vote3"), tx("vote1"), E, B, E, B, tx("deploy"), tx("callfail"), tx("callok"), tx("callok", "replay"), E, B, tx("callfail3"), tx("callfail", "gap"), E],
+        [B, tx("xfer"), tx("xfer", "dup"), tx("xfer", "gap"), tx("stakelow"), tx("xferself"), tx("name3"), E, B, tx("xfer"), tx("xfer", "replay"), tx("forged3"), tx("setownself"), E, B, tx("setownoth"), E],
+        [B, tx("vault"), tx("stake"), tx("stake3"), tx("setownoth"), E, B, tx("vote1"), tx("vote3"), tx("vote1"), tx("name"), E, B, tx("setownself"), E, B, tx("deploy"), tx("callfail"), tx("callok"), tx("callok", "replay"), E, B, tx("callfail3"), tx("callfail", "gap"), E],
     ]
     # the harness runs behaviour i under regime i mod len(REGIMES): the first scenario (every transaction kind, failures,
     # replays, system failures) goes first, once per regime
